@@ -290,8 +290,15 @@ def conservation(ctx, mg):
             (bi_in, a_in), (bi_af, a_af) = inloop[0], after[0]
             if a_in[1] != lv or a_af[1] != lv:
                 probs.append("pushed values are %s / %s, expected the current centroid" % (fmt(a_in[1])[:60], fmt(a_af[1])[:60]))
+            direct = False
             if a_in[0][0] == "loopvar" and a_af[0] == a_in[0]:
                 res_l = a_in[0][1]
+            elif a_in[0] == ("field", selfp, "centroids") and a_af[0] == a_in[0]:
+                # the result is built in `self.centroids` itself, whose old items were moved out before (drain / take)
+                from .common import all_writes as _aw
+                direct = any(self_field(w_) == "centroids" and w_.get("name") in ("drain", "take") and not w_.get("via") for w_ in _aw(ctx, mg))
+                if not direct:
+                    probs.append("the result is pushed onto self.centroids, which still holds the old centroids")
             else:
                 probs.append("the two pushes do not target the same result vector")
             # the definition `current = next` must be dominated by the in-loop push; the fused definition must not be
@@ -312,7 +319,9 @@ def conservation(ctx, mg):
                 probs.append("the final current centroid is not pushed on every path after the loop")
         # final store
         st = [w for w in __import__("pdsa.rules.common", fromlist=["all_writes"]).all_writes(ctx, mg) if self_field(w) == "centroids" and w["how"] == "store"]
-        if not (len(st) == 1 and res_l is not None and (st[0].get("value_local") == res_l or any(s == ("clobber", res_l) or s == ("loopvar", res_l, h) for s in subterms(st[0]["value"])))):
+        if len(inloop) == 1 and len(after) == 1 and direct:
+            pass
+        elif not (len(st) == 1 and res_l is not None and (st[0].get("value_local") == res_l or any(s == ("clobber", res_l) or s == ("loopvar", res_l, h) for s in subterms(st[0]["value"])))):
             probs.append("self.centroids is not replaced by the result vector")
     ctx.check(not probs, "R16-conservation", mg.key, mg, "every drained centroid is fused into or becomes `current`, every `current` is pushed exactly once, centroids = result",
               "; ".join(probs[:3]))
